@@ -154,9 +154,10 @@ def judge(case, records, app):
     had_block = False
     had_fault = False
     had_note = False
+    cur_fault = [None]  # (side, index) of the rail / dialog action whose call failed in the turn being judged
 
     def P(tag, t, what, detail=""):
-        problems.append({"tag": tag, "t": t, "what": what, "detail": str(detail)[:400], "after_fault": had_fault, "after_block": had_block, "after_note": had_note})
+        problems.append({"tag": tag, "t": t, "what": what, "detail": str(detail)[:400], "after_fault": had_fault, "after_block": had_block, "after_note": had_note, "fault_rail": cur_fault[0]})
 
     for rec in records:
         t = rec["t"]
@@ -181,9 +182,11 @@ def judge(case, records, app):
             break
         content = reply.get("content") if isinstance(reply, dict) else None
         wellformed = isinstance(reply, dict) and reply.get("role") in ("assistant", "exception") and (isinstance(content, (str, dict)) or content is None)
+        cur_fault[0] = None
         if faults:
             stats["faulted_turns"] += 1
             f = faults[0]
+            cur_fault[0] = (f["side"], f.get("idx"))
             if not wellformed:
                 P("C03", t, "malformed-reply-after-fault", reply)
             else:
